@@ -42,6 +42,9 @@ pub struct Expected {
     pub reference_inputs: BTreeSet<(Vec<u8>, u64)>,
     pub collateral: BTreeSet<(Vec<u8>, u64)>,
     pub metadata: BTreeMap<u64, MetaVal>,
+    /// reward account (29 bytes: header + credential) -> lovelace
+    pub withdrawals: BTreeMap<Vec<u8>, i128>,
+    pub donation: Option<i128>,
     pub fee: u64,
     pub network: u8,
 }
@@ -489,6 +492,29 @@ fn denote_inner(ev: &Ev) -> R<Expected> {
     }
     for (_, r) in &p.references {
         x.reference_inputs.insert(ev.rf(r));
+    }
+    for (from, amount) in &p.withdrawals {
+        // the reward account of an address is the stake address of its delegation part
+        let a = ev.addr(from)?;
+        if a.len() != 57 {
+            return undef("withdrawal from an address without a delegation part");
+        }
+        let mut account = vec![0xe0 | (a[0] & 0x0f)];
+        account.extend_from_slice(&a[29..57]);
+        let n = ev.int(amount)?;
+        if n < 0 || n > u64::MAX as i128 {
+            return Err(Denotation::MustFail(format!("withdrawal amount {n} outside [0, 2^64)")));
+        }
+        if x.withdrawals.insert(account, n).is_some() {
+            return undef("two withdrawals from one reward account");
+        }
+    }
+    if let Some(coin) = &p.donation {
+        let n = ev.int(coin)?;
+        if n <= 0 || n > u64::MAX as i128 {
+            return Err(Denotation::MustFail(format!("donation {n} outside [1, 2^64)")));
+        }
+        x.donation = Some(n);
     }
     for (k, v) in &p.metadata {
         let key = ev.int(k)?;
